@@ -336,6 +336,7 @@ def make_cp_harness(which, pattern):
 
     def fn(ex):
         mod = load_spg()
+        install_brentq_contract(ex, mod)
         S = {k: px.extract_step(mod, CP, sel)[0] for k, sel in CP_SELECT.items()}
         b = sym_bounds(ex, pattern)
         x, g = ex.vec('x', n), ex.vec('g', n)
@@ -744,6 +745,7 @@ def make_main_step_harness(pattern, incremental, nkinds=2, check_stability=False
 
     def fn(ex):
         mod = load_spg()
+        install_brentq_contract(ex, mod)     # the unchanged body never reaches brentq; a changed one may (contract as in O2)
         step = px.extract_step(mod, MAIN, sel_main_for)[0]
         obj = UObjective(ex, n, precond='identity')
         settings = main_settings(ex, mod, incremental=incremental, check_stability=check_stability)
@@ -870,6 +872,7 @@ def _o5_note(h, n, mode):
     h.assume_note('stub: find_generalized_cauchy_point and solve_spg_subproblem return ANY step with x + step in the box and |step| <= trSize, any model value, step type and iteration count (contracts established by O3/O4)',
                   'assumption: the model change reported by the sub-solver is not exactly 0 (signed-zero division corner; DESIGN C01)',
                   'stub: print/format are no-ops; debug_info=False; preconditioner = identity (the SPG solver does not use it)',
+                  'stub: scipy.optimize.brentq by contract as in O2 (not reached by the unchanged outer loop); the goal true_flag_only_with_small_optimality uses the check\'s own measure |P(y - grad f(y)) - y| built from `project` (O1) and the objective model, not the value computed by the code',
                   'inductive step: pre-state is any state satisfying Inv (x feasible, g = grad f(x), o = f(x), prevOptimality = |P(x-g)-x| >= tol, trSize > 0), reachable or not')
     h.outside('convergence (also on convex problems); IEEE rounding; RuntimeError raised by the Cauchy-point search propagates to the caller')
 
@@ -901,6 +904,7 @@ def make_main_whole_harness(pattern, n_iters=0):
 
     def fn(ex):
         mod = load_spg()
+        install_brentq_contract(ex, mod)
         obj = UObjective(ex, n, precond='identity')
         settings = main_settings(ex, mod, n_iters=n_iters)
         b = sym_bounds(ex, pattern)
